@@ -15,7 +15,8 @@ does not make the base declared.  The harness realises the numbers as a class hi
 | `ins`, `sortDesc`              | `handlers.sort(reverse=True, key=itemgetter(0))` (474): *the* stable descending sort                  |
 | `addCore`                      | `addListener` 456-476 (after the declared check)                                                        |
 | `doAction (.add ..)`           | `addListener` 439-455 (+ `addListenerByName`/`add_listener`: names are in bijection with types)        |
-| `doAction (.bind ..)`          | `autoBindEvents` 538-565 (`listenTo`, `addListeners`)                                                   |
+| `doAction (.bind ..)`          | `autoBindEvents` 531-565 incl. the method-name prefix (`listenTo`, `addListeners`)                      |
+| `rmMany`                       | `removeListeners` 319-323                                                                               |
 | `removeWhere`, `.rmHandler/.rmEid/.rmPair` | `removeListener` 331-382, three argument forms, with and without `eventType`             |
 | `.clear`, `.count`             | `clearHandlers` 501-505, `_eventMixin_get_listener_count` 325-329                                       |
 | `.dropOwner`                   | `CallProxy._forgetMe` 588-594 for every weak subscription of a collected owner                          |
@@ -38,7 +39,8 @@ modelled (`Src.inited`: the instance attribute `_eventMixin_handlers` exists): e
 
 Not modelled (assumptions of C05): raising the same event *instance* twice, `Event._invoke` overrides, non-`Event`
 arguments to `raiseEvent`, an exception hook that itself raises, two declared event classes with the same `__name__`,
-and garbage collection of an owner while one of its handlers is in an in-flight snapshot.  Core only. -/
+and the collection of an owner while one of its own methods is executing (CPython defers it; the harness does not release
+it then, and `exec` mirrors that: `ownerRunning`).  Core only. -/
 namespace Pox.Revent
 
 /-- exception classes the code can produce: `ReventError`, `KeyError`, `AttributeError`, anything else (scripted handler exceptions,
@@ -88,10 +90,11 @@ inductive Form | inst | cls
 
 inductive Action
   | add (et hid : Nat) (prio : Int) (once : Bool) (weak : Option Nat)
-  | bind (ets : List Nat) (hidBase : Nat) (prio : Int) (weak : Option Nat)
+  | bind (meths : List (Nat × Nat)) (pfx hidBase : Nat) (prio : Int) (weak : Option Nat)
   | rmHandler (hid : Nat) (et : Option Nat)
   | rmEid (eid : Nat) (et : Option Nat)
   | rmPair (et eid : Nat) (et' : Option Nat)
+  | rmMany (l : List (Nat × Nat))
   | clear
   | dropOwner (o : Nat)
   | count
@@ -178,6 +181,19 @@ def removeWhere (s : Src) (p : Entry → Bool) : Option Nat → Src × Res
     | some l =>
       ({ s with handlers := fun k => if k = et then some (dropMatching p l) else s.handlers k }, .ok (.bool (l.any p)))
 
+/-- `removeListeners` 319-323: one `removeListener((type, eid))` after the other; the first `KeyError` ends the loop
+    (what was removed before stays removed).  Returns whether any call altered something. -/
+def rmOne (s : Src) (et eid : Nat) (l : List Entry) : Src :=
+  { s with handlers := fun k => if k = et then some (dropMatching (fun e => e.eid == eid) l) else s.handlers k, inited := true }
+
+def rmMany (s : Src) (alt : Bool) : List (Nat × Nat) → Src × Res
+  | [] => (s, .ok (.bool alt))
+  | (et, eid) :: rest =>
+    match s.handlers et with
+    | none => ({ s with inited := true }, .exc .key)
+    | some l =>
+      rmMany (rmOne s et eid l) (alt || l.any (fun e => e.eid == eid)) rest
+
 /-- `x[1] != handler`: a weak entry holds a `CallProxy`, which never equals the handler -/
 def matchHandler (hid : Nat) (e : Entry) : Bool := e.weak.isNone && e.hid == hid
 def matchEid (eid : Nat) (e : Entry) : Bool := e.eid == eid
@@ -192,15 +208,18 @@ def doAction (s : Src) : Action → Src × Res
       let r := addCore s et hid prio once weak
       (r.1, .ok (.pair r.2.1 r.2.2))
     else (s.touch, .exc .revent)                       -- 439 runs before the check
-  | .bind ets hidBase prio weak =>
+  | .bind meths pfx hidBase prio weak =>
     if s.acceptAll then (s, .exc .other)               -- `for e in True`: TypeError
     else
-      let r := bindAll s hidBase prio weak ets
+      -- 552-553: of the sink's `_handle[_<prefix>]_<Event>` methods (`meths`: (prefix, event), in `dir()` order; prefix 0 =
+      -- none) only those with exactly the given prefix name an event; the method for (p, et) has identity hidBase + 10 p + et
+      let r := bindAll s (hidBase + 10 * pfx) prio weak ((meths.filter fun m => m.1 == pfx).map (·.2))
       (r.1, .ok (.pairs r.2))
   | .rmHandler hid et => removeWhere s.touch (matchHandler hid) et          -- 340 runs first
   | .rmEid eid et => removeWhere s.touch (matchEid eid) et
   | .rmPair et eid et' =>
     removeWhere s.touch (matchEid eid) (some (match et' with | some t => t | none => et))
+  | .rmMany l => rmMany s false l
   | .clear => ({ s with handlers := fun _ => none, keys := [], inited := true }, .ok .unit)
   | .dropOwner o => ((removeWhere s (matchOwner o) none).1, .ok .unit)
   | .count => if s.inited then (s, .ok (.nat s.count)) else (s, .exc .attr)
@@ -225,7 +244,8 @@ structure Script where
 /-- observable events, in order -/
 inductive Ev
   | begin (fid src et : Nat) (snap : List Entry)   -- a delivery starts on source `src`; `snap` = the copy of the handler list it iterates
-  | call (fid src : Nat) (e : Entry)               -- handler invoked for delivery `fid` (which runs on source `src`)
+  | call (fid src : Nat) (e : Entry) (live : Bool) -- delivery `fid` (on source `src`) reaches entry `e`; `live`: the handler's code runs
+                                                   -- (`false`: a `CallProxy` whose owner has been collected answers by itself)
   | ret (fid : Nat) (e : Entry) (r : Ret) (h : Bool)   -- ... and returned / raised; `h` = `event.halt` at that moment
   | endf (fid : Nat) (noErr : Bool) (r : Res)      -- `raiseEvent`/`raiseEventNoErrors` of delivery `fid` returns / raises
   | res (r : Res)                                  -- result of an action, as seen by whoever performed it
@@ -275,9 +295,11 @@ structure M where
   pend : Option (Res × Bool)   -- a result on its way to the innermost running handler (or to top level); guarded?
   log : List Ev
   nextFid : Nat
+  gone : List (Nat × Bool)     -- weak subscriptions still sitting in an in-flight snapshot whose owner has been collected:
+                               -- (eid, the proxy's own removal failed with KeyError: it will raise "object is gone")
 
 def M.init (v : Variant) (srcs : Nat → Src) (ops : List SAct) : M :=
-  { v := v, srcs := srcs, stack := [], todo := ops, pend := none, log := [], nextFid := 0 }
+  { v := v, srcs := srcs, stack := [], todo := ops, pend := none, log := [], nextFid := 0, gone := [] }
 
 /-- the loop of delivery `fr` ends normally: `break` (`halt`) or exhaustion; 317 `return event` -/
 def finish (m : M) (fr : Frame) (st : List Frame) (halt : Bool) : M :=
@@ -319,9 +341,25 @@ def doActionM (srcs : Nat → Src) (i : Nat) (a : Action) : (Nat → Src) × Res
   | .dropOwner o => (fun j => (doAction (srcs j) (.dropOwner o)).1, .ok .unit)
   | a => let r := doAction (srcs i) a; (setSrc srcs i r.1, r.2)
 
+/-- one of `o`'s methods is executing somewhere up the stack: CPython keeps `o` alive (and the harness does not release it) -/
+def ownerRunning (stack : List Frame) (o : Nat) : Bool :=
+  stack.any fun fr => match fr.cur with
+    | some (e, _, _) => e.weak == some o
+    | none => false
+
+/-- the `CallProxy`s of owner `o` that in-flight deliveries have still to reach: `_forgetMe` (588-594) removes each from
+    its source's list; if that fails (the event type's list is gone: `clearHandlers`) the proxy keeps a dead weakref -/
+def collect (srcs : Nat → Src) (o : Nat) (stack : List Frame) : List (Nat × Bool) :=
+  stack.flatMap fun fr => (fr.rest.filter fun e => e.weak == some o).map fun e => (e.eid, ((srcs fr.src).handlers fr.et).isNone)
+
 /-- perform one action on behalf of the innermost running handler (or of top level) -/
 def exec (m : M) (sa : SAct) (g : Bool) : M :=
   match sa.act with
+  | .dropOwner o =>
+    if ownerRunning m.stack o then { m with pend := some (.ok .unit, g) }
+    else
+      let r := doActionM m.srcs sa.src (.dropOwner o)
+      { m with srcs := r.1, pend := some (r.2, g), gone := m.gone ++ collect m.srcs o m.stack }
   | .raise et form noErr =>
     -- every `raiseEvent*` call gets the next id, whether or not it gets as far as the dispatch loop; 260: lazy init
     let m1 : M := { m with nextFid := m.nextFid + 1, srcs := updSrc m.srcs sa.src (m.srcs sa.src).touch }
@@ -360,10 +398,15 @@ def step (β : Beh) (m : M) : M :=
         match fr.rest with
         | [] => finish m fr st fr.halt
         | e :: rest =>
-          let sc := β e.hid m.log
-          { m with log := m.log ++ [.call fr.fid fr.src e],
-                   stack := { fr with rest := rest, cur := some (e, sc.acts, sc.ret),
-                                      halt := match sc.halt with | some b => b | none => fr.halt } :: st }
+          match m.gone.find? (fun p => p.1 == e.eid) with
+          | some (_, zombie) =>                 -- 597-602: the proxy answers by itself: `None`, or ReventError("object is gone")
+            { m with log := m.log ++ [.call fr.fid fr.src e false],
+                     stack := { fr with rest := rest, cur := some (e, [], if zombie then .exc .revent else .none) } :: st }
+          | none =>
+            let sc := β e.hid m.log
+            { m with log := m.log ++ [.call fr.fid fr.src e true],
+                     stack := { fr with rest := rest, cur := some (e, sc.acts, sc.ret),
+                                        halt := match sc.halt with | some b => b | none => fr.halt } :: st }
 
 def run (β : Beh) : Nat → M → M
   | 0, m => m
@@ -379,7 +422,7 @@ def drive (β : Beh) : Nat → M → M
 /-- handlers invoked for delivery `f`, in order -/
 def callsOf (f : Nat) : List Ev → List Entry
   | [] => []
-  | .call f' _ e :: l => if f' = f then e :: callsOf f l else callsOf f l
+  | .call f' _ e _ :: l => if f' = f then e :: callsOf f l else callsOf f l
   | _ :: l => callsOf f l
 
 /-- handlers of delivery `f` that have returned / raised, with what, and `event.halt` at that moment -/
